@@ -36,8 +36,8 @@ def cases(tier, seed, shard, nshards):
                   bad_kinds=["oversell-cpu", "oversell-ram", "oversell-cpu", "oversell-ram", "suspend-mid", "unknown-pool"],
                   integer_sizes=rng.random() < 0.6, p_suspend=rng.choice([0.0, 0.3, 0.8]),
                   mem_heavy=rng.random() < 0.5, p_unready=0.0)
-        if tier == "thorough" and i % 200 == 0:
-            kw.update(steps=20000, p_bad=0.0, integer_sizes=False, npipes=60, drain=2000)  # drift
+        if tier == "thorough" and i % 1500 == 0:
+            kw.update(steps=8000, p_bad=0.0, integer_sizes=False, npipes=40, drain=2000)  # drift
         yield _exec.mix_case(rng, i, **kw)
     from . import _sim
     for i in range(N_SIM[tier]):
